@@ -59,7 +59,7 @@ if [ $SUITE = pass ] && [ $DEMO_CLEAN = pass ] && [ $DEMO_PATCHED = fail ]; then
 import json,sys
 ID,N,BASE,PASSED,DEMO=sys.argv[1:6]
 notes=open(f'/tmp/seeded-out/{ID}/notes{N}.md').read() if __import__('os').path.exists(f'/tmp/seeded-out/{ID}/notes{N}.md') else ''
-json.dump({"property":ID,"variant":int(N),"base_commit":BASE,"origin":"independent sub-agent given only the property text and a scratch worktree",
+json.dump({"property":ID[:3],"round":(2 if ID.endswith("r2") else 1),"variant":int(N),"base_commit":BASE,"origin":"independent sub-agent given only the property text and a scratch worktree",
  "confirmed":{"compiles":True,"existing_suite_passes_with_patch":True,"tests_passed_with_patch":int(PASSED),"demo_passes_without_patch":True,"demo_fails_with_patch":True,
  "how":"tools/confirm_seeded.sh in a scratch worktree (/tmp/hv-confirm): cargo test --workspace with the patch; demo targets: "+DEMO},
  "needs_to_manifest": notes[:1500]}, open(f'/verif/seeded/{ID}-{N}/meta.json','w'), indent=1)
